@@ -111,10 +111,10 @@ def run_one(name, tiers):
         have_check = os.path.exists(os.path.join(HERE, "pbt", "props", pid.lower() + ".py"))
         row["checks"] = {}
         if have_check:
-            for tier in tiers:
+            def attempt(tier, extra):
                 t0 = time.time()
                 try:
-                    res = sh([os.path.join(HERE, "check"), pid, "--tier", tier, "--no-evidence", "--no-regress"],
+                    res = sh([os.path.join(HERE, "check"), pid, "--tier", tier, "--no-evidence"] + extra,
                              env=dict(os.environ, VERIF_REPO=tmp, VERIF_SEED="1"), timeout=7200)
                     code = res.returncode
                     fail = [l.strip() for l in res.stdout.splitlines() if l.strip().startswith("failure:")]
@@ -122,12 +122,29 @@ def run_one(name, tiers):
                     tail = res.stdout[-800:] if code == 2 else ""
                 except subprocess.TimeoutExpired:
                     code, fail, viol, tail = -1, [], [], "timeout"
-                row["checks"][tier] = {"exit": code, "detected": code == 1 and bool(viol),
-                                       "wall_s": round(time.time() - t0, 1),
-                                       "first_failure": (fail[0][:300] if fail else ""), "tail": tail}
-                if code == 1 and viol and "replay=" in viol[0]:
-                    row["regress_file"] = harvest(name, pid, viol[0].split("replay=")[1].strip(), tmp)
-                if code == 1:
+                return {"exit": code, "detected": code == 1 and bool(viol), "wall_s": round(time.time() - t0, 1),
+                        "first_failure": (fail[0][:300] if fail else ""), "tail": tail,
+                        "replay": (viol[0].split("replay=")[1].strip() if viol and "replay=" in viol[0] else "")}
+
+            for tier in tiers:
+                # 1. generation + exhaustive parts only (committed regress replays switched off): does the
+                #    search itself find the change?
+                got = attempt(tier, ["--no-regress"])
+                got["how"] = "generated / exhaustive search"
+                if not got["detected"] and got["exit"] == 0:
+                    # 2. the registered command as it is: committed regress corpus included
+                    again = attempt(tier, [])
+                    if again["detected"]:
+                        own = os.path.basename(again["replay"]) == "seeded-%s.json" % name
+                        again["how"] = ("regress replay harvested from this very change (search alone missed it "
+                                        "at this seed)" if own else "committed regress corpus (%s)" % again["replay"])
+                        got = again
+                row["checks"][tier] = got
+                if got["detected"] and got["replay"] and not got["replay"].startswith("regress/"):
+                    row["regress_file"] = harvest(name, pid, got["replay"], tmp)
+                elif os.path.exists(os.path.join(HERE, "regress", pid, "seeded-%s.json" % name)):
+                    row["regress_file"] = "regress/%s/seeded-%s.json" % (pid, name)
+                if got["exit"] == 1:
                     break
     finally:
         shutil.rmtree(tmp, ignore_errors=True)
